@@ -159,17 +159,123 @@ def _clean(fn: ast.FunctionDef) -> List[ast.stmt]:
     return out
 
 
+# ---------------------------------------------------------------------------------------------- record methods (round 4)
+# Methods of File / Folder that touch only the object's own fields, translated onto `FileRec` / `FolderRec` (structure + health):
+#     return True / False                                   (r, true) / (r, false)
+#     self.deleted = True / False                           let r := { r with <item> := { r.<item> with deleted := … } }
+#     self.health_status = FileSystemItemHealthStatus.X     let r := { r with health := .x }
+#     self.visible_health_status = self.health_status | …X  let r := { r with visible := r.health | .x }
+#     self.num_access += 1                                  let r := { r with acc := r.acc + 1 }                       (File)
+#     self.restore_countdown = max(self.restore_duration, 1)  let r := { r with g := { r.g with restoreCountdown := max … 1 } }  (Folder)
+#     if <cond>: … [elif/else: …]                           if … then T(body ++ rest) else T(orelse ++ rest)   (continuation passing:
+#                                                           a branch that returns ends there; code after a `return` is dead)
+#     cond: self.deleted | self.health_status == …X | self.health_status in [X, Y] | self.restore_countdown <= 0 | not / and / or
+#     logging, docstrings, warnings.warn(...), `path = …` (string for the log)            skipped
+HEALTH = "FileSystemItemHealthStatus."
+
+
+def _health(e: ast.AST) -> str:
+    u = _u(e)
+    if not u.startswith(HEALTH):
+        raise Unsupported("health value " + u)
+    return "Health." + u[len(HEALTH):].lower()
+
+
+def _rcond(e: ast.AST, item: str) -> str:
+    if isinstance(e, ast.BoolOp):
+        op = " && " if isinstance(e.op, ast.And) else " || "
+        return "(" + op.join(_rcond(v, item) for v in e.values) + ")"
+    if isinstance(e, ast.UnaryOp) and isinstance(e.op, ast.Not):
+        return f"(!{_rcond(e.operand, item)})"
+    u = _u(e)
+    if u == "self.deleted":
+        return f"r.{item}.deleted"
+    if isinstance(e, ast.Compare) and len(e.ops) == 1:
+        l, r, op = _u(e.left), e.comparators[0], e.ops[0]
+        fld = {"self.health_status": "r.health", "self.visible_health_status": "r.visible"}.get(l)
+        if fld and isinstance(op, ast.Eq):
+            return f"({fld} == {_health(r)})"
+        if fld and isinstance(op, ast.NotEq):
+            return f"({fld} != {_health(r)})"
+        if fld and isinstance(op, ast.In) and isinstance(r, ast.List):
+            return "(" + " || ".join(f"{fld} == {_health(x)}" for x in r.elts) + ")"
+        if item == "g" and l == "self.restore_countdown" and isinstance(op, ast.LtE) and _u(r) == "0":
+            return "decide (r.g.restoreCountdown ≤ 0)"
+    raise Unsupported("condition " + u)
+
+
+def _rskip(st: ast.stmt) -> bool:
+    if isinstance(st, ast.Expr) and isinstance(st.value, ast.Constant):
+        return True
+    if _is_syslog(st):
+        return True
+    if isinstance(st, ast.Expr) and isinstance(st.value, ast.Call) and _u(st.value.func) == "warnings.warn":
+        return True
+    if isinstance(st, ast.Assign) and len(st.targets) == 1 and isinstance(st.targets[0], ast.Name) and st.targets[0].id in ("path", "msg"):
+        if any(isinstance(n, ast.Call) for n in ast.walk(st.value)):
+            raise Unsupported("call inside a log string " + _u(st))
+        return True
+    return False
+
+
+def _rstmts(body: List[ast.stmt], item: str, ind: int) -> str:
+    pad = "  " * ind
+    body = [st for st in body if not _rskip(st)]
+    if not body:
+        raise Unsupported("a method that answers falls off the end")
+    st, rest = body[0], body[1:]
+    if isinstance(st, ast.Return):
+        if not (isinstance(st.value, ast.Constant) and isinstance(st.value.value, bool)):
+            raise Unsupported("return " + _u(st))
+        return pad + f"(r, {'true' if st.value.value else 'false'})"
+    if isinstance(st, ast.If):
+        return (pad + f"if {_rcond(st.test, item)} then\n" + _rstmts(list(st.body) + rest, item, ind + 1) + "\n" + pad + "else\n"
+                + _rstmts(list(st.orelse) + rest, item, ind + 1))
+    if isinstance(st, ast.Assign) and len(st.targets) == 1:
+        t, v = _u(st.targets[0]), st.value
+        if t == "self.deleted" and isinstance(v, ast.Constant) and isinstance(v.value, bool):
+            return pad + f"let r := {{ r with {item} := {{ r.{item} with deleted := {'true' if v.value else 'false'} }} }}\n" + _rstmts(rest, item, ind)
+        if t == "self.health_status":
+            return pad + f"let r := {{ r with health := {_health(v)} }}\n" + _rstmts(rest, item, ind)
+        if t == "self.visible_health_status":
+            val = "r.health" if _u(v) == "self.health_status" else _health(v)
+            return pad + f"let r := {{ r with visible := {val} }}\n" + _rstmts(rest, item, ind)
+        if item == "g" and t == "self.restore_countdown" and _u(v) == "max(self.restore_duration, 1)":
+            return pad + "let r := { r with g := { r.g with restoreCountdown := max r.g.restoreDuration 1 } }\n" + _rstmts(rest, item, ind)
+        raise Unsupported("assignment " + _u(st))
+    if isinstance(st, ast.AugAssign) and item == "f" and _u(st.target) == "self.num_access" and isinstance(st.op, ast.Add) and _u(st.value) == "1":
+        return pad + "let r := { r with acc := r.acc + 1 }\n" + _rstmts(rest, item, ind)
+    raise Unsupported("statement " + _u(st)[:80])
+
+
+FILE_METHODS = [("restore", "fileRestore"), ("delete", "fileDelete"), ("scan", "fileScan"), ("repair", "fileRepair"),
+                ("corrupt", "fileCorrupt"), ("check_hash", "fileCheckHash")]
+FOLDER_METHODS = [("restore", "folderRestore"), ("delete", "folderDelete"), ("check_hash", "folderCheckHash")]
+TRANSLATED = (["Folder.restore_file", "Folder.add_file"] + [f"File.{m}" for m, _ in FILE_METHODS]
+              + [f"Folder.{m}" for m, _ in FOLDER_METHODS])
+
+
 def emit() -> str:
     fo = class_def(parse(FOLDER), "Folder")
     rf = find_method(fo, "restore_file")
     af = find_method(fo, "add_file")
     if [a.arg for a in rf.args.args] != ["self", "file_name"] or [a.arg for a in af.args.args] != ["self", "file", "force"]:
         raise Unsupported("signature of restore_file / add_file")
-    L = ["import PrimaiteModel.Model.FileSystem", "namespace Primaite.Gen.FileSystemMethods", "open Primaite.FileSystem", "",
+    from harness.extract.filesystem import FILE
+    fi = class_def(parse(FILE), "File")
+    R: List[str] = []
+    for cls, item, rec, table in ((fi, "f", "FileRec", FILE_METHODS), (fo, "g", "FolderRec", FOLDER_METHODS)):
+        for m, nm in table:
+            fn = find_method(cls, m)
+            if [a.arg for a in fn.args.args] != ["self"]:
+                raise Unsupported(f"signature of {cls.name}.{m}")
+            R += [f"/-- `{cls.name}.{m}`, translated statement by statement onto `{rec}` -/",
+                  f"def {nm} (r : {rec}) : {rec} × Bool :=", _rstmts(list(fn.body), item, 1), ""]
+    L = ["import PrimaiteModel.Model.FileSystemHealth", "namespace Primaite.Gen.FileSystemMethods", "open Primaite.FileSystem", "",
          "/-- `Folder.restore_file`, translated statement by statement -/",
          "def folderRestoreFile (g : Folder) (file_name : Name) : Folder × Bool :=",
          _stmts(_clean(rf), set(), True, 1), "",
          "/-- `Folder.add_file`, translated statement by statement (`none` = raises) -/",
          "def folderAddFile (g : Folder) (file : File) (force : Bool) : Option Folder :=",
-         _stmts(_clean(af), set(), False, 1), "", "end Primaite.Gen.FileSystemMethods", ""]
+         _stmts(_clean(af), set(), False, 1), ""] + R + ["end Primaite.Gen.FileSystemMethods", ""]
     return "\n".join(L)
